@@ -6,6 +6,7 @@ import Gnet.Spec.ReactorSpec
 import Gnet.Proofs.ReactorLife
 import Gnet.Props.Handover
 import Gnet.Spec.ReactorExample
+import Gnet.Proofs.ReactorRuns
 namespace Gnet.Props.C07
 open Gnet.Reactor
 
@@ -15,6 +16,11 @@ open Gnet.Reactor
 theorem fd_discipline (s s' : RState) (toks : List Tok) (hn : NamesNodup s)
     (h : acceptRound s toks = .ok s') (hl : InvLife s) (hf : InvFd s) : InvFd s' :=
   Proofs.ReactorLife.fd_discipline s s' toks hn h hl hf
+
+/-- the same for whole histories: after ANY number of accepted rounds from the initial state of any configuration -/
+theorem fd_discipline_all_histories (cfg : Cfg) (rounds : List (List Tok)) (s' : RState)
+    (h : Proofs.ReactorRuns.acceptRounds { cfg := cfg } rounds = .ok s') : InvFd s' :=
+  (Proofs.ReactorRuns.runs_from_init cfg rounds s' h).2.2.2.1
 
 /-! Non-vacuity of `fd_discipline`: the recorded history issues accept, epoll_ctl, write, read, epoll_ctl(DEL) and close on
 c1, and ends with the descriptor closed. -/
